@@ -12,12 +12,12 @@ from ural.utils import pathsplit, urlsplit, urlunsplit, safe_urlsplit, SplitResu
 from ural.patterns import DOMAIN_TEMPLATE, DOMAIN_LABELS_PREFIX
 
 TELEGRAM_MESSAGE_ID_RE = re.compile(r"^\d+$")
-TELEGRAM_DOMAINS_RE = re.compile(r"(?:^|\.)(?:telegram\.(?:org|me)|t\.me)$", re.I)
+TELEGRAM_DOMAINS_RE = re.compile(r"(?:^|\.)(?:telegram\.(?:org|me)|t\.me)$", re.I | getattr(re, "A", 0))
 TELEGRAM_URL_RE = re.compile(
-    DOMAIN_TEMPLATE % (DOMAIN_LABELS_PREFIX + r"(?:telegram\.(?:org|me)|t\.me)"), re.I
+    DOMAIN_TEMPLATE % (DOMAIN_LABELS_PREFIX + r"(?:telegram\.(?:org|me)|t\.me)"), re.I | getattr(re, "A", 0)
 )
 TELEGRAM_PUBLIC_REPLACE_RE = re.compile(
-    r"^(?:[^.]+\.)?(?:telegram\.(?:org|me)|t\.me)", re.I
+    r"^(?:[^.]+\.)?(?:telegram\.(?:org|me)|t\.me)", re.I | getattr(re, "A", 0)
 )
 
 TelegramMessage = namedtuple("TelegramMessage", ["name", "id"])
